@@ -203,6 +203,9 @@ fn strip_prefix_name(name: &str, prefix: &str) -> String {
 /// A text piece carries the literal text (`s`) and what the string table holds at the
 /// literal's index (`tab`), both as symbol arrays; a literal whose index is outside the table
 /// gets `tab = ["OOB"]`.
+const MAX_COMP_DEPTH: usize = 40;
+thread_local! { static COMP_DEPTH: std::cell::Cell<usize> = const { std::cell::Cell::new(0) }; }
+
 struct Canon<'a> {
     syms: &'a Syms,
     strings: &'a [std::rc::Rc<str>],
@@ -266,7 +269,17 @@ impl<'a> Canon<'a> {
             }
             ParsedValue::Component { key, inner } => {
                 self.flush();
-                let c = canon_pieces(self.syms, self.strings, inner);
+                // TLC's JSON reader refuses more than 255 nested levels: below MAX_COMP_DEPTH nested components the
+                // projection is cut (no specification compares trees that deep; the robustness families only judge the outcome)
+                let depth = COMP_DEPTH.with(|d| d.get());
+                let c = if depth >= MAX_COMP_DEPTH {
+                    json!([{"k": "cut"}])
+                } else {
+                    COMP_DEPTH.with(|d| d.set(depth + 1));
+                    let c = canon_pieces(self.syms, self.strings, inner);
+                    COMP_DEPTH.with(|d| d.set(depth));
+                    c
+                };
                 self.pieces.push(json!({"k": "comp", "n": strip_prefix_name(&key.name, "comp_"), "c": c}));
             }
             ParsedValue::ForeignKey(fk) => {
